@@ -6,8 +6,9 @@
      - structs are well formed (as many keys as entries),
      - the undocumented case-converter key fallback never hits (the recorded deviation of C01, excluded exactly),
      - `not in` between two lists is coherent (== is an equivalence on the members; fails for NaN),
-   with one direction missing for the evaluator WITH its caches: that an evaluation error of SEval never meets a
-   defined Spec verdict is proved for the memo-free evaluator only (MemoProps relates Done outcomes).
+   in both directions also for the evaluator WITH its caches (C01_refinement_total): a status is the documented status,
+   an evaluation error never meets a defined verdict (MemoErr.v: the failures of SEval are the failures of the memo-free
+   evaluator), and SEval never answers where the semantics is undefined.
    RefineExample.v shows the premises satisfiable (okv) and instantiates the theorem on a non-trivial program.
    The refinement is ALSO checked on every run by evaluating Spec inside Coq on the implementation's parsed AST and
    loaded value and comparing with the implementation's verdicts (tools/gv/props/c01.py); that is what ties Spec
@@ -100,6 +101,38 @@ Theorem C01_refinement : forall re conv lit_ok prog doc,
   end.
 Proof. exact refinement. Qed.
 Print Assumptions C01_refinement.
+
+(* the error direction for the evaluator with its caches: an evaluation error never meets a defined verdict *)
+Theorem C01_refinement_errors : forall re conv lit_ok prog doc,
+  (forall p ks vals, world lit_ok doc (PMap p ks vals) -> List.length ks = List.length vals) ->
+  (forall p ks vals c k k', world lit_ok doc (PMap p ks vals) -> conv c k = Some k' -> map_get k vals = None -> map_get k' vals = None) ->
+  (forall v r, world lit_ok doc v -> nin_ok re v r) ->
+  forall n m e,
+  nc_prog prog = true ->
+  eval_file re conv prog n doc = Err e ->
+  match spec_file re lit_ok prog doc m with
+  | SOk _ => False
+  | _ => True
+  end.
+Proof. exact refinement_errors. Qed.
+Print Assumptions C01_refinement_errors.
+
+(* both directions in one statement: whatever SEval answers at whatever fuel, the documented semantics agrees wherever
+   it covers the file *)
+Theorem C01_refinement_total : forall re conv lit_ok prog doc,
+  (forall p ks vals, world lit_ok doc (PMap p ks vals) -> List.length ks = List.length vals) ->
+  (forall p ks vals c k k', world lit_ok doc (PMap p ks vals) -> conv c k = Some k' -> map_get k vals = None -> map_get k' vals = None) ->
+  (forall v r, world lit_ok doc v -> nin_ok re v r) ->
+  forall n m,
+  nc_prog prog = true ->
+  match eval_file re conv prog n doc, spec_file re lit_ok prog doc m with
+  | Done (st, recs, _), SOk (st', table) => st = st' /\ exists rec, recs = [rec] /\ compare_rules table (rule_statuses rec) = None
+  | Done _, SUndef => False
+  | Err _, SOk _ => False
+  | _, _ => True
+  end.
+Proof. exact refinement_total. Qed.
+Print Assumptions C01_refinement_total.
 
 (* the memo-free evaluator (what MemoProps shows SEval computes), errors included: an evaluation error is raised
    exactly when the semantics is undefined *)
